@@ -1078,12 +1078,18 @@ func (c *ArrayConverter) To(obj Object) (interface{}, error) {
 	if !ok {
 		return nil, errz.TypeErrorf("type error: expected a list (%s given)", obj.Type())
 	}
+	if len(list.items) > c.len {
+		return nil, errz.TypeErrorf("type error: list of %d items does not fit in an array of %d", len(list.items), c.len)
+	}
 	array := reflect.New(reflect.ArrayOf(c.len, c.valueType))
 	arrayElem := array.Elem()
 	for i, v := range list.items {
 		item, err := c.valueConverter.To(v)
 		if err != nil {
 			return nil, errz.TypeErrorf("type error: failed to convert element: %v", err)
+		}
+		if item == nil {
+			continue // a nil element is the zero value of the element type
 		}
 		arrayElem.Index(i).Set(reflect.ValueOf(item))
 	}
